@@ -61,8 +61,8 @@ theorem InvC.preserved {cfg : Cfg} {s s' : State} {l : Label} (hB : InvB s) (hI 
     kind_startupCleanup_iff] at *)
   all_goals (try subst_vars)
   all_goals (try dsimp only)
-  all_goals (first | grind [upd, Root.kind, TS.active, TS.live, TS.ended, TS.isStopping, failTS, cancelSubs,
-    cancelRoots, Pend.ts, scPastWait, scEarly] | (trace_state; sorry))
+  all_goals (grind [upd, Root.kind, TS.active, TS.live, TS.ended, TS.isStopping, failTS, cancelSubs,
+    cancelRoots, Pend.ts, scPastWait, scEarly])
 
 theorem InvC.reach {cfg : Cfg} {s : State} (h : Reach cfg s) : InvC s :=
   Reach.induction (P := InvC) InvC.init (fun _ _ _ hr hI hs => InvC.preserved (InvB.reach hr) hI hs) s h
